@@ -503,6 +503,10 @@ _PURE_METHODS = ('split', 'rsplit', 'join', 'partition', 'rpartition', 'count', 
                  'lower', 'upper', 'strip', 'lstrip', 'rstrip', 'replace', 'find', 'index', 'get', 'isdigit',
                  'keys', 'values', 'items', 'encode', 'decode', 'ljust', 'rjust', 'zfill', 'format')
 
+class Rec(dict):
+  """a sample object for evaluation: attribute access reads the dict"""
+  def __hash__ (self): return id(self)
+
 class _Opaque(object):
   """placeholder for an element whose value is not known (inside an otherwise known container)"""
   def __repr__ (self): return '<?>'
@@ -535,24 +539,36 @@ def eval_env2 (repo, module, e, env, cls=None):
     t = eval_env2(repo, module, e.test, env, cls)
     if t is OPAQUE: raise _Unknown()
     return eval_env2(repo, module, e.body if t else e.orelse, env, cls)
-  if isinstance(e, (ast.ListComp, ast.GeneratorExp, ast.SetComp)) and len(e.generators) == 1:
-    c0 = e.generators[0]
-    seq = eval_env2(repo, module, c0.iter, env, cls)
-    if seq is OPAQUE: raise _Unknown()
-    try: items = list(seq)
-    except Exception: raise _Unknown()
-    if len(items) > 64: raise _Unknown()
+  if isinstance(e, (ast.ListComp, ast.GeneratorExp, ast.SetComp)) and len(e.generators) <= 3:
     out = []
-    for it in items:
-      ne = _bind_target(c0.target, it, env)
-      keep = True
-      for cond in c0.ifs:
-        v = eval_env2(repo, module, cond, ne, cls)
-        if v is OPAQUE: raise _Unknown()
-        if not v: keep = False; break
-      if keep: out.append(eval_env2(repo, module, e.elt, ne, cls))
+    def gen (i, cur_env):
+      if i == len(e.generators):
+        out.append(eval_env2(repo, module, e.elt, cur_env, cls)); return
+      c0 = e.generators[i]
+      seq = eval_env2(repo, module, c0.iter, cur_env, cls)
+      if seq is OPAQUE: raise _Unknown()
+      try: items = list(seq)
+      except Exception: raise _Unknown()
+      if len(items) > 64: raise _Unknown()
+      for it in items:
+        ne = _bind_target(c0.target, it, cur_env)
+        keep = True
+        for cond in c0.ifs:
+          v = eval_env2(repo, module, cond, ne, cls)
+          if v is OPAQUE: raise _Unknown()
+          if not v: keep = False; break
+        if keep: gen(i + 1, ne)
+    gen(0, env)
     return set(out) if isinstance(e, ast.SetComp) else out
   if isinstance(e, ast.Call): return _eval_call(repo, module, e, env, cls)
+  if isinstance(e, ast.Attribute):
+    hit, v = env.lookup(e)
+    if not hit:
+      try: base = eval_env2(repo, module, e.value, env, cls)
+      except _Unknown: base = None
+      if isinstance(base, Rec):
+        if e.attr in base: return base[e.attr]
+        raise _Unknown()
   if isinstance(e, ast.Subscript):
     base = eval_env2(repo, module, e.value, env, cls)
     if isinstance(e.slice, ast.Slice):
@@ -628,6 +644,19 @@ def paths_under (repo, module, g, env, start, stops, cls=None, limit=200, track=
     ne = e
     if track and n.kind == 'stmt' and isinstance(n.ast, (ast.Assign, ast.AugAssign)) and (n is not start or (track_start and len(path) == 1)):
       ne = _assign_env(repo, module, n.ast, e, cls)
+    elif track and n.kind == 'stmt' and isinstance(n.ast, ast.Expr) and isinstance(n.ast.value, ast.Call) and isinstance(n.ast.value.func, ast.Attribute) \
+         and n.ast.value.func.attr in ('append', 'extend') and isinstance(n.ast.value.func.value, ast.Name) and len(n.ast.value.args) == 1:
+      # growth of a local list whose value is known
+      nm_ = n.ast.value.func.value.id
+      cur_ = e.exact.get(nm_)
+      if isinstance(cur_, list):
+        ne = Env(dict(e.exact), list(e.matchers), getattr(e, 'call_hook', None))
+        try:
+          v_ = eval_env2(repo, module, n.ast.value.args[0], e, cls)
+          if v_ is OPAQUE: raise _Unknown()
+          ne.exact[nm_] = cur_ + ([v_] if n.ast.value.func.attr == 'append' else list(v_))
+        except Exception:
+          _kill(ne, nm_)
     for m, l in succ:
       if l == 'exc': continue
       key = (n.id, m.id)
